@@ -454,6 +454,13 @@ struct Slot {
     out: PathBuf,
 }
 
+/// Run i of a batch uses seed `run_seed_base(VERIF_SEED) + i`. VERIF_SEED=1 gives 1, 2, 3, ...;
+/// every other VERIF_SEED gets its own window, 10^10 apart, so that two base seeds explore
+/// disjoint sets of runs instead of the same window shifted by one.
+pub fn run_seed_base(verif_seed: u64) -> u64 {
+    1u64.wrapping_add(verif_seed.wrapping_sub(1).wrapping_mul(10_000_000_000))
+}
+
 fn spawn_worker(def: &PropDef, tier: Tier, base: u64, lo: u64, hi: u64, out: &Path) -> Child {
     let _ = std::fs::remove_file(out);
     let _ = std::fs::remove_file(out.with_extension("viol"));
@@ -637,7 +644,7 @@ pub fn check_main(def: &PropDef, o: &CheckOpts) -> i32 {
             continue;
         }
         let out = dir.join(format!("w{j}-{lo}.json"));
-        let child = spawn_worker(def, o.tier, o.seed, lo, hi, &out);
+        let child = spawn_worker(def, o.tier, run_seed_base(o.seed), lo, hi, &out);
         slots.push(Slot { child, lo, hi, out });
     }
     let mut agg_runs = 0u64;
@@ -716,7 +723,7 @@ pub fn check_main(def: &PropDef, o: &CheckOpts) -> i32 {
                         skipped_after_known += 1;
                         if idx + 1 < sl.hi {
                             let out = dir.join(format!("w-{}-{}.json", sl.lo, idx + 1));
-                            let child = spawn_worker(def, o.tier, o.seed, idx + 1, sl.hi, &out);
+                            let child = spawn_worker(def, o.tier, run_seed_base(o.seed), idx + 1, sl.hi, &out);
                             pending.push(Slot {
                                 child,
                                 lo: idx + 1,
